@@ -242,7 +242,19 @@ pub fn record_sat(args: &Args) {
                                     .map(|l| if l.polarity() { l.label().value() as i64 + 1 } else { -(l.label().value() as i64 + 1) })
                                     .collect::<Vec<_>>()
                             }) {
-                                Ok(d) => ev["diff"] = json!(d),
+                                Ok(d) => {
+                                    // a decision that implied other literals: (sometimes) go back and decide each of the implied
+                                    // literals on its own - neighbouring states whose residuals differ in few literals, the states
+                                    // a hash that mis-counts a step with several falsified literals of one clause collides with
+                                    if attack && d.len() >= 2 && script.is_empty() && rng.chance(1, 3) {
+                                        script.push_back(None);
+                                        for x in d.iter().filter(|x| **x != lit).take(3) {
+                                            script.push_back(Some(((x.unsigned_abs() - 1) as usize, *x > 0)));
+                                            script.push_back(None);
+                                        }
+                                    }
+                                    ev["diff"] = json!(d);
+                                }
                                 Err(m) => ev["panic"] = json!(format!("difference_iter: {m}")),
                             }
                         }
